@@ -9,7 +9,8 @@
    Not proved: that ast.Optimize is a composition of such rewrites (and of inlining and class merging);
    that is decided on every run by executing the real optimizer and comparing the unoptimized and the
    optimized grammar under Ref, the model and real parsers (C09_whole_optimizer_partial, DESIGN.md). *)
-From PV Require Import Lib.Base Lib.Utf8 Syntax.RGrammar Syntax.Code Model.PState Spec.Pos Model.Runtime Spec.Ref Proofs.OptLaws.
+From PV Require Import Lib.Base Lib.Utf8 Syntax.RGrammar Syntax.Code Model.PState Spec.Pos Model.Runtime Spec.Ref Proofs.OptLaws
+  Proofs.RefMono Proofs.CntInsens Proofs.RefOptLaws.
 
 Theorem C09_choice_in_choice_flattens : forall ev H R inv n a b d sc g m,
   (forall g0 m0, ev H R inv (EAlt n b) [] g0 m0 = ralt ev H R inv b [] g0 m0) ->
@@ -41,3 +42,20 @@ Proof.
   intros c f H R inv n b g m Hb. cbn [reval]. unfold over_budget. rewrite Hb. cbn [N.eqb negb andb].
   eexists. reflexivity.
 Qed.
+
+(* ... and that carrying-over is done for the choice law: for Ref itself, at every fuel at which the nested form is
+   defined and without an expression budget, flattening a nested choice changes nothing but the expression counter
+   (same outcome, value, position, state, scope, log and global store).  Ingredients: fuel monotonicity of reval
+   (RefMono.reval_mono) and insensitivity to the counter (CntInsens.counter_is_bookkeeping). *)
+Theorem C09_ref_choice_in_choice_flattens : forall c, o_maxexpr (rO c) = 0%N ->
+  forall f H R inv n n' a b d sc g m,
+    reval c (S (S f)) H R inv (EAlt n (a ++ EAlt n' b :: d)) sc g m <> ROut ->
+    rsim (reval c (S (S f)) H R inv (EAlt n (a ++ EAlt n' b :: d)) sc g m)
+         (reval c (S (S f)) H R inv (EAlt n (a ++ b ++ d)) sc g m).
+Proof. exact ref_choice_in_choice_flattens. Qed.
+Print Assumptions C09_ref_choice_in_choice_flattens.
+
+Theorem C09_ref_fuel_is_only_a_bound : forall c f f' H R inv e sc g m, f <= f' ->
+  reval c f H R inv e sc g m <> ROut -> reval c f' H R inv e sc g m = reval c f H R inv e sc g m.
+Proof. exact reval_mono_le. Qed.
+Print Assumptions C09_ref_fuel_is_only_a_bound.
